@@ -110,7 +110,11 @@ func build(repo, bdir string) string {
 	if err := os.MkdirAll(bdir, 0o755); err != nil {
 		die(2, "build dir: %v", err)
 	}
-	st, err := instrument.Build(repo, bdir, filepath.Join(verifDir, "overlay"))
+	// VERIF_SRC (debugging aid, not used by any registered command): a frozen copy
+	// of /verif holding sim/ and overlay/, so that the live tree can be edited
+	// while long batches run
+	srcDir := envDefault("VERIF_SRC", verifDir)
+	st, err := instrument.Build(repo, bdir, filepath.Join(srcDir, "overlay"))
 	if err != nil {
 		// does the plain tree parse at all?
 		die(2, "BUILD-ERROR instrumenter: %v", err)
@@ -119,12 +123,12 @@ func build(repo, bdir string) string {
 	gomod := fmt.Sprintf("module github.com/cbeuw/Cloak/verifsim\n\ngo 1.26\n\nrequire github.com/cbeuw/Cloak v0.0.0\n\nrequire github.com/anishathalye/porcupine v1.3.0\n\nreplace github.com/cbeuw/Cloak => %s\n", repo)
 	os.WriteFile(filepath.Join(bdir, "go.mod"), []byte(gomod), 0o644)
 	sum, _ := os.ReadFile(filepath.Join(repo, "go.sum"))
-	extra, _ := os.ReadFile(filepath.Join(verifDir, "sim", "go.sum.extra"))
+	extra, _ := os.ReadFile(filepath.Join(srcDir, "sim", "go.sum.extra"))
 	os.WriteFile(filepath.Join(bdir, "go.sum"), append(sum, extra...), 0o644)
 	bin := filepath.Join(bdir, "sim.test")
 	cmd := exec.Command(goBin, "test", "-c", "-vet=off", "-tags", "verif", "-modfile", filepath.Join(bdir, "go.mod"),
 		"-overlay", filepath.Join(bdir, "overlay.json"), "-o", bin, ".")
-	cmd.Dir = filepath.Join(verifDir, "sim")
+	cmd.Dir = filepath.Join(srcDir, "sim")
 	cmd.Env = goEnv()
 	out, err := cmd.CombinedOutput()
 	if err != nil {
